@@ -67,11 +67,11 @@ class C04(Config):
     audit_dirs = ["Lib", "Gen", "C04"]
     header = ("From Coq Require Import Uint63.\n"
               "From V.Lib Require Import Base Hex Blake2b.\n"
-              "From V.C04 Require Import Model Spec Corr Wf.\n"
+              "From V.C04 Require Import Model ModelV4 Spec SpecV4 Corr Wf.\n"
               "Local Open Scope N_scope.")
     bin = "c04"
     release_too = False
-    n_tags = 190
+    n_tags = 230
     shard_size = 30
     classes = {}
     harness_timeout = 1800
@@ -81,8 +81,10 @@ class C04(Config):
             "auth commitment, shielded sighash and the transparent sighash of every input x every hash type are "
             "compared byte for byte with the Gallina ZIP 244 model evaluated with the Gallina BLAKE2b; "
             "single-field mutation pairs (every field position) evaluated on the implementation's digests; "
-            "v1-v4: txid against SHA-256d of the serialisation and single-field mutations of txid and ZIP 143/243 "
-            "sighash; distinct = distinct case lines")
+            "v1-v4: txid against SHA-256d of the serialisation; v3/v4: ZIP 143/243 signature hashes of structured "
+            "transactions and of the repository's ZIP 143/243 vectors (incl. JoinSplits) against the Gallina model, "
+            "single-field mutation pairs (every field, signed input = mutated position and another one, script code / "
+            "scriptPubKey / value of the coin as distinct context fields); distinct = distinct case lines")
     trusted_base = [
         "Coq 8.16.1 kernel, vm_compute (no native_compute)",
         "axioms: none (every theorem is closed under the global context)",
@@ -101,7 +103,8 @@ class C04(Config):
     partial_clauses = [
         "'changes' is proved for the pre-image terms; inequality of the 32-byte digests is observed on the implementation "
         "for every mutation case and otherwise rests on collision resistance",
-        "v1-v4: SHA-256d relation and field coverage are checked on the implementation (harness-side SHA-256d), not proved",
+        "v1-v4: txid = SHA-256d(serialisation) is checked on the implementation with the harness-side sha2 crate (no Gallina SHA-256); "
+        "the v3/v4 signature hash is modelled and proved like v5, pre-Overwinter signature hashing is unsupported by the code (panics) and not modelled",
     ]
 
     @staticmethod
